@@ -21,7 +21,11 @@ impl std::fmt::Debug for Utc {
 
 impl std::fmt::Display for Utc {
     fn fmt(&self, f: &mut std::fmt::Formatter) -> std::fmt::Result {
-        (time::OffsetDateTime::UNIX_EPOCH + self.0).fmt(f)
+        // `OffsetDateTime + Duration` panics outside of the supported range of years.
+        match time::OffsetDateTime::UNIX_EPOCH.checked_add(self.0) {
+            Some(t) => t.fmt(f),
+            None => write!(f, "{}s since unix epoch", self.0.whole_seconds()),
+        }
     }
 }
 
